@@ -179,12 +179,17 @@ def plan(chk):
     kinds = [("one_per_file", big, None), ("one_per_file", 40, None), ("contiguous", 60, 12), ("contiguous", 40, 2), ("interleaved2", 40, 8),
              ("interleaved2", 24, 2), ("round_robin", 30, 5), ("revisit", 40, None), ("single", 30, None),
              ("contiguous-shuffled", 80, 20), ("contiguous-reversed", 60, 12), ("contiguous-shuffled", 30, 3)]
+    if chk.thorough:
+        # "thousands of blk files": more files than the default descriptor limit of 1024
+        kinds = kinds + [("one_per_file", 2500, None), ("contiguous-shuffled", 3000, 1200)]
     reps = 4 if chk.thorough else 1
     for rep in range(reps):
         for kind, blocks, nfiles in kinds:
             n += 1
+            if blocks > 1000 and rep > 0:
+                continue
             specs.append(dict(case="case", coin=COIN_NAMES[n % 8], chain_seed=chk.seed * 100 + n, n=n, kind=kind, blocks=blocks, nfiles=nfiles or 4,
-                              rlimit=True))
+                              rlimit=True, ranges=blocks <= 1000))
     for i in range(40 if chk.thorough else 6):
         n += 1
         kind = rng.choice(["one_per_file", "contiguous", "interleaved2", "round_robin", "revisit", "contiguous-shuffled", "contiguous-reversed"])
